@@ -577,6 +577,15 @@ def deep_texts() -> list[str]:
         out.append("n" * n + ":pk(A)")
         out.append("wsh(" + "and_v(v:pk(A)," * n + "pk(A)" + ")" * n + ")")
         out.append("m" + "/0" * n)
+    # every place a text holds a number, with a number of thousands of digits (zeros ahead of a small one, and nines): Python's own limit on integer texts
+    # (4300 digits) is not the library's refusal
+    K2 = "02" + K
+    xpub = "xpub661MyMwAqRbcFtXgS5sYJABqqG9YLmC4Q1Rdap9gSE8NqtwybGhePY2gZ29ESFjqJoCu1Rupje8YtGqsefD265TMg7usUDFdp6W1EGMcet8"
+    for num in ("0" * 5000 + "1", "9" * 5000, "1" + "0" * 4300):
+        out += [f"multi({num},{K2})", f"multi(1,{K2},{K2})".replace("multi(1", f"multi({num}"), f"multi_a({num},{K})", f"sortedmulti({num},{K2})", f"sortedmulti_a({num},{K})", f"thresh({num},pk({K2}))",
+                f"older({num})", f"after({num})", f"and_v(v:pk({K2}),older({num}))", f"wsh(multi({num},{K2}))", f"sh(sortedmulti({num},{K2}))", f"sh(wsh(multi({num},{K2},{K2})))", f"tr({K},multi_a({num},{K}))",
+                f"tr({K},sortedmulti_a({num},{K}))", f"wsh(thresh({num},pk({K2})))", f"wsh(and_v(v:pk({K2}),after({num})))", f"wpkh({xpub}/{num})", f"wpkh({xpub}/{num}/*)", f"wpkh({xpub}/<{num};1>/*)",
+                f"wpkh([d34db33f/{num}h]{xpub})", f"m/{num}", f"m/{num}h/0", f"bitcoin:1BvBMSEYstWetqTFn5Au4m4GFg7xJaNVN2?amount={num}", f"bitcoin:1BvBMSEYstWetqTFn5Au4m4GFg7xJaNVN2?amount=0.{num}"]
     return out
 
 
